@@ -194,15 +194,24 @@ func runConnPath(g *connGroup, path []connStep, res *hx.Result) (sig, desc strin
 			return "infra", "unknown action " + st.Act.Op, i, capExceeded, stuck
 		}
 		res.Eval(fmt.Sprintf("%d|%s.%s|%s", g.MaxIn, st.Act.Op, name, st.Obs.String()))
+		// a refusal AFTER the handshake (intended design: addPeer re-checks) is not told apart from an
+		// insert followed by a removal: "rejected" is compared for attempts whose handshake never started
+		want := st.Obs
+		want.Rejected = []string{}
+		for _, c := range st.Obs.Rejected {
+			if ph := rg.phase[c]; ph == "tcp" || ph == "refused" {
+				want.Rejected = append(want.Rejected, c)
+			}
+		}
 		var got connObs
-		ok := waitFor(settleDeadline, func() bool { got = rg.observe(); return got.String() == st.Obs.String() })
+		ok := waitFor(settleDeadline, func() bool { got = rg.observe(); return got.String() == want.String() })
 		if ok {
 			time.Sleep(stableWindow)
 			got = rg.observe()
-			ok = got.String() == st.Obs.String()
+			ok = got.String() == want.String()
 		}
 		if !ok {
-			return "replay:conn:" + st.Act.Op + ":state", fmt.Sprintf("after %s(%s) [maxIn=%d] the syncer shows %s, the implementation-shaped specification says %s", st.Act.Op, name, g.MaxIn, got, st.Obs), i, capExceeded, stuck
+			return "replay:conn:" + st.Act.Op + ":state", fmt.Sprintf("after %s(%s) [maxIn=%d] the syncer shows %s, the specification says %s", st.Act.Op, name, g.MaxIn, got, want), i, capExceeded, stuck
 		}
 		if st.Obs.Stuck && stuck == "" {
 			// the implementation-shaped specification says Close now depends on the remote: confirm on the real syncer
